@@ -820,7 +820,7 @@ theorem thresholds_follow_last_update (thr0 : Thr) (nh : Nat) (ops : List Op) (p
     (curMgr (run Code.gen (init thr0 nh) (ops ++ [.update p thr st n]))).max = thr ∧
     ∀ id r t pth, validPath (run Code.gen (init thr0 nh) (ops ++ [.update p thr st n])) t = true →
       validPath (run Code.gen (init thr0 nh) (ops ++ [.update p thr st n])) pth = true →
-      ((admit (run Code.gen (init thr0 nh) (ops ++ [.update p thr st n])) id r t pth).2 = false ↔
+      ((acquire (run Code.gen (init thr0 nh) (ops ++ [.update p thr st n])) id r t pth).2 = false ↔
         (0 < thr.get r ∧ thr.get r ≤ count r (run Code.gen (init thr0 nh) (ops ++ [.update p thr st n])).live)) := by
   obtain ⟨hi, hl, _⟩ := MosnVerif.Model.ResourceShare.reach (init thr0 nh) _ (inv_init _ _) (ledger_init _ _) (gauges_init _ _) hz
   have hm : (curMgr (run Code.gen (init thr0 nh) (ops ++ [.update p thr st n]))).max = thr := by
@@ -913,7 +913,7 @@ def Code.resetCur : Code :=
 
 def thr1 : Thr := ⟨1, 1, 1, 1⟩
 /-- one retry in flight, one update (same thresholds, same type), the retry ends -/
-def histShare : List Op := [.admit 1 .retr (.info 0) (.info 0), .update true thr1 true 0, .release 1]
+def histShare : List Op := [.acquire 1 .retr (.info 0) (.info 0), .update true thr1 true 0, .release 1]
 
 /-- **copy_instead_of_share_leaks**: one in-flight retry, one update, release: the decrement lands on the OLD object, the current
 manager keeps `Retries().Cur() = 1` with nothing in flight — for ever (no sequence of further ends can lower it), and with
@@ -921,7 +921,7 @@ manager keeps `Retries().Cur() = 1` with nothing in flight — for ever (no sequ
 theorem copy_instead_of_share_leaks :
     (curMgr (run Code.copy (init thr1 1) histShare)).cur.retr = 1 ∧ (run Code.copy (init thr1 1) histShare).live = [] ∧
     (∀ ids : List Nat, (curMgr (run Code.copy (run Code.copy (init thr1 1) histShare) (ids.map .release))).cur.retr = 1) ∧
-    (admit (run Code.copy (init thr1 1) histShare) 3 .retr (.info 1) (.info 1)).2 = false ∧
+    (acquire (run Code.copy (init thr1 1) histShare) 3 .retr (.info 1) (.info 1)).2 = false ∧
     (curMgr (run Code.gen (init thr1 1) histShare)).cur.retr = 0 := by
   refine ⟨by decide, by decide, ?_, by decide, by decide⟩
   intro ids
@@ -940,23 +940,23 @@ theorem copy_instead_of_share_leaks :
 on a manager of its own: with `max_retries = 1`, a retry in flight from before the update and a retry of a request routed after it
 are BOTH admitted (the limit does not trip), and the current manager shows 1 with two in flight -/
 theorem dropped_handler_splits_ledger :
-    let s := run Code.dropped (init thr1 1) [.admit 1 .retr (.info 0) (.info 0), .update false thr1 true 1, .admit 3 .retr (.info 1) (.info 1)]
+    let s := run Code.dropped (init thr1 1) [.acquire 1 .retr (.info 0) (.info 0), .update false thr1 true 1, .acquire 3 .retr (.info 1) (.info 1)]
     count .retr s.live = 2 ∧ (curMgr s).cur.retr = 1 ∧
-    count .retr (run Code.gen (init thr1 1) [.admit 1 .retr (.info 0) (.info 0), .update false thr1 true 1, .admit 3 .retr (.info 1) (.info 1)]).live = 1 := by
+    count .retr (run Code.gen (init thr1 1) [.acquire 1 .retr (.info 0) (.info 0), .update false thr1 true 1, .acquire 3 .retr (.info 1) (.info 1)]).live = 1 := by
   decide
 
 /-- **type_guard_orphans** (the defect that was fixed): with the type guard, a request in flight over an update that changes the
 cluster type gives its slot back through its host — pointed at the NEW info by InheritClusterHostsHandler — to the fresh manager:
 `Requests().Cur() = -1` with nothing in flight -/
 theorem type_guard_orphans :
-    let s := run Code.typeGuard (init thr1 1) [.admit 0 .req (.host 0) (.host 0), .update true thr1 false 0, .release 0]
+    let s := run Code.typeGuard (init thr1 1) [.acquire 0 .req (.host 0) (.host 0), .update true thr1 false 0, .release 0]
     (curMgr s).cur.req = -1 ∧ s.live = [] ∧
-    (curMgr (run Code.gen (init thr1 1) [.admit 0 .req (.host 0) (.host 0), .update true thr1 false 0, .release 0])).cur.req = 0 := by
+    (curMgr (run Code.gen (init thr1 1) [.acquire 0 .req (.host 0) (.host 0), .update true thr1 false 0, .release 0])).cur.req = 0 := by
   decide
 
 /-- **reset_cur_goes_negative**: `updateResourceValue` resetting the counters: what was in flight is given back to a counter at 0 -/
 theorem reset_cur_goes_negative :
-    let s := run Code.resetCur (init thr1 1) [.admit 0 .req (.host 0) (.host 0), .update true thr1 true 0, .release 0]
+    let s := run Code.resetCur (init thr1 1) [.acquire 0 .req (.host 0) (.host 0), .update true thr1 true 0, .release 0]
     (curMgr s).cur.req = -1 ∧ s.live = [] := by
   decide
 
@@ -965,23 +965,23 @@ update that moves a threshold between 0 and non-zero under a held unit breaks th
 limited to 1 by an update, released: `Cur() = -1`.  (b) admitted at limit 1 (counted), lifted to 0, released (not decremented),
 limited to 1 again: `Cur() = 1` with nothing in flight and every later request refused. -/
 theorem threshold_through_zero_leaks :
-    (curMgr (run Code.gen (init ⟨0, 0, 0, 0⟩ 1) [.admit 0 .req (.host 0) (.host 0), .update true thr1 true 0, .release 0])).cur.req = -1 ∧
-    (let s := run Code.gen (init thr1 1) [.admit 0 .req (.host 0) (.host 0), .update true ⟨0, 0, 0, 0⟩ true 0, .release 0, .update true thr1 true 0]
-     (curMgr s).cur.req = 1 ∧ s.live = [] ∧ (admit s 2 .req (.host 0) (.host 0)).2 = false) ∧
-    zeroStable Code.gen (init ⟨0, 0, 0, 0⟩ 1) [.admit 0 .req (.host 0) (.host 0), .update true thr1 true 0, .release 0] = false := by
+    (curMgr (run Code.gen (init ⟨0, 0, 0, 0⟩ 1) [.acquire 0 .req (.host 0) (.host 0), .update true thr1 true 0, .release 0])).cur.req = -1 ∧
+    (let s := run Code.gen (init thr1 1) [.acquire 0 .req (.host 0) (.host 0), .update true ⟨0, 0, 0, 0⟩ true 0, .release 0, .update true thr1 true 0]
+     (curMgr s).cur.req = 1 ∧ s.live = [] ∧ (acquire s 2 .req (.host 0) (.host 0)).2 = false) ∧
+    zeroStable Code.gen (init ⟨0, 0, 0, 0⟩ 1) [.acquire 0 .req (.host 0) (.host 0), .update true thr1 true 0, .release 0] = false := by
   decide
 
 -- non-vacuity: a zero-stable history with units in flight over updates through both mutators, a type change and changed thresholds
 def histOk : List Op :=
-  [.admit 0 .req (.host 0) (.host 0), .admit 1 .retr (.info 0) (.info 0), .update true ⟨2, 0, 2, 1⟩ true 0,
-   .admit 2 .req (.host 0) (.host 0), .update false ⟨1, 0, 1, 1⟩ false 1, .admit 4 .req (.host 1) (.host 1), .release 0,
-   .admit 9 .conn (.info 2) (.host 1), .release 1, .release 2, .release 9]
+  [.acquire 0 .req (.host 0) (.host 0), .acquire 1 .retr (.info 0) (.info 0), .update true ⟨2, 0, 2, 1⟩ true 0,
+   .acquire 2 .req (.host 0) (.host 0), .update false ⟨1, 0, 1, 1⟩ false 1, .acquire 4 .req (.host 1) (.host 1), .release 0,
+   .acquire 9 .conn (.info 2) (.host 1), .release 1, .release 2, .release 9]
 example : zeroStable Code.gen (init thr1 1) histOk = true := by decide
 example : (curMgr (run Code.gen (init thr1 1) (histOk.take 6))).cur = ⟨0, 0, 2, 1⟩ ∧
     (curMgr (run Code.gen (init thr1 1) (histOk.take 6))).max = ⟨1, 0, 1, 1⟩ ∧
     (run Code.gen (init thr1 1) histOk).live = [] ∧ (curMgr (run Code.gen (init thr1 1) histOk)).cur = ⟨0, 0, 0, 0⟩ := by decide
 -- thresholds_follow_last_update: the request `4` above was refused at the NEW threshold 1 against the two admitted before the update
-example : (admit (run Code.gen (init thr1 1) (histOk.take 5)) 4 .req (.host 1) (.host 1)).2 = false := by decide
+example : (acquire (run Code.gen (init thr1 1) (histOk.take 5)) 4 .req (.host 1) (.host 1)).2 = false := by decide
 -- the histories of the harness: zero-stable by name, with a refusal at the new threshold, and the predicate is not trivially true
 def shist : List SOp := [.start 0, .retry 0, .update true 0 ⟨1, 0, 2, 1⟩, .start 1, .update false 1 ⟨1, 0, 1, 1⟩, .start 2, .open_ 0,
   .retry 1, .fin 0, .fin 1, .close 0]
